@@ -394,4 +394,45 @@ theorem fs_find_none_iff (env : Env) (hd : DigitsNotWs env.cs) (fuel : Nat) (pre
     | none => rfl
     | some h' => rw [hf] at hs; exact absurd a (fs_finds_not_nothing env _ rest h' hs)
 
+/-! ### the candidate grammar, declaratively -/
+
+/-- **the candidate grammar of `find_inline_quantity`**, on the text from the scan position:
+    * `skipped` holds no ASCII digit and the number starts with the first ASCII digit of the text;
+    * the word at that digit is the maximal run without white space (`char::is_whitespace`);
+    * GLUED (`2kg`, `1.5x`): the word has a character that is no ASCII digit and no `.`: the number is the word up
+      to the first such character, the unit word is the rest of the word, there is no gap;
+    * SPACED (`2 kg`): the word is ASCII digits and `.` only and is the number; the gap is the maximal run of white
+      space after it (not empty) and the unit word is the next maximal run without white space (not empty);
+    * TRAILING: the word is digits and `.` only, and only white space (at least one) follows to the end of the
+      text: gap and unit word are empty;
+    * a number word that ends the text is no candidate.
+    A sign is not part of the candidate (`fsHit` looks at the character before the number). -/
+def IsCand (cs : CharSpec) (rest : Str) (c : FsCand) : Prop :=
+  rest = c.skipped ++ c.number ++ c.gap ++ c.unit ++ c.after ∧
+  c.skipped.all (fun x => !isAsciiDigitC x) = true ∧
+  (∃ d t, c.number = d :: t ∧ isAsciiDigitC d = true) ∧
+  c.number.all (fun x => (isAsciiDigitC x || x == '.') && !cs.uws x) = true ∧
+  c.unit.all (fun x => !cs.uws x) = true ∧
+  (∀ x, c.after.head? = some x → cs.uws x = true) ∧
+  ((c.gap = [] ∧ ∃ x t, c.unit = x :: t ∧ isAsciiDigitC x = false ∧ x ≠ '.') ∨
+   (c.gap ≠ [] ∧ c.gap.all cs.uws = true ∧ c.unit ≠ []) ∨
+   (c.gap = [] ∧ c.unit = [] ∧ c.after ≠ [] ∧ c.after.all cs.uws = true))
+
+theorem fs_dropWhile_head' {β : Type} (p : β → Bool) (l : List β) :
+    ∀ x, (l.dropWhile p).head? = some x → p x = false := by
+  intro x h
+  cases hd : l.dropWhile p with
+  | nil => rw [hd] at h; cases h
+  | cons a t =>
+    rw [hd] at h
+    simp only [List.head?_cons, Option.some.injEq] at h
+    subst h
+    exact inlineScan_dropWhile_head p l _ _ hd
+
+theorem fs_findIdx_none {β : Type} (q : β → Bool) (l : List β) (h : l.findIdx? q = none) :
+    ∀ x ∈ l, q x = false := by
+  intro x hx
+  have := List.findIdx?_eq_none_iff.mp h x hx
+  simpa using this
+
 end Cook
